@@ -54,19 +54,28 @@ Theorem C01_average : forall e rows,
 Proof. intros. cbn [acc_empty]. rewrite avg_fold. reflexivity. Qed.
 Print Assumptions C01_average.
 
+(** min / max (fix b2f85e2): the integer arguments (an integer, or text holding one: [int_args]) are
+    compared exactly, the other numeric arguments ([float_args]) as doubles; the cell is the smaller /
+    larger of the two extrema ([minmax_emit]), so an integer beyond 2^53 is reported digit for digit.
+    [numeric_args_split]: the two lists together are the numeric arguments. *)
 Theorem C01_min : forall e rows,
   acc_emit (fold_left acc_step rows (acc_empty (FMin e))) =
-  let m := fold_left (fun acc v => if fltb v acc then v else acc) (numeric_args e rows) f_inf in
-  Ok (if f_is_finite m then from_float m else VNone).
-Proof. intros. cbn [acc_empty]. rewrite min_fold. reflexivity. Qed.
+  let m := fold_left (fun acc v => if fltb v acc then v else acc) (float_args e rows) f_inf in
+  Ok (minmax_emit true m (minZ (int_args e rows))).
+Proof. intros. apply min_emit. Qed.
 Print Assumptions C01_min.
 
 Theorem C01_max : forall e rows,
   acc_emit (fold_left acc_step rows (acc_empty (FMax e))) =
-  let m := fold_left (fun acc v => if fltb acc v then v else acc) (numeric_args e rows) f_neg_inf in
-  Ok (if f_is_finite m then from_float m else VNone).
-Proof. intros. cbn [acc_empty]. rewrite max_fold. reflexivity. Qed.
+  let m := fold_left (fun acc v => if fltb acc v then v else acc) (float_args e rows) f_neg_inf in
+  Ok (minmax_emit false m (maxZ (int_args e rows))).
+Proof. intros. apply max_emit. Qed.
 Print Assumptions C01_max.
+
+Theorem C01_min_max_arguments : forall e rows,
+  Permutation (numeric_args e rows) (map f_of_Z (int_args e rows) ++ float_args e rows).
+Proof. exact numeric_args_split. Qed.
+Print Assumptions C01_min_max_arguments.
 
 (** a group with no numeric value reports None for min / max *)
 Theorem C01_min_max_none : forall e rows, numeric_args e rows = [] ->
